@@ -382,6 +382,30 @@ def sched_check(ctx, oracle, profiles, nontrivial, witnesses=(), rule=''):
     return results
 
 
+def fault_study(ctx, oracle):
+    '''histories in which the database refuses a run id during a dispatch
+    (farm.dispatch: "allow db impl to throw an exception via rerunid()": the
+    job stays with the farm and is retried by the next dispatch).  This event
+    is NOT in the model: the histories support the search for failing inputs
+    with the property oracle only, no theorem speaks about them.'''
+    n = ctx.n(40, 400)
+    cases = [{'seed': '%d:fault:%d' % (ctx.seed, i), 'nev': 50, 'profile': 'fault',
+              'nalg': 6 if i % 3 else 8, 'shape': 'fan' if i % 2 else 'random'} for i in range(n)]
+    cases.insert(0, {'seed': 'fault-directed', 'nev': 0, 'events': [
+        ['reg', 1, 0, True], ['org', [0], None, [1]], ['tickf'], ['tick'], ['tick']], 'nalg': 3})
+    out = ctx.harness('drive_sched.py', {'cases': cases})
+    nf = 0
+    for c, r in zip(cases, out['cases']):
+        r['seed'] = c['seed']
+        nf += sum(1 for o in r['obs'] if [10] in o['outs'])
+        for kind, fields, what, step in oracle(r):
+            ctx.violation(kind, fields, what, {'source': 'oracle (fault history, not modelled)',
+                                              'step': step, 'case': strip(r, step)})
+    ctx.note('fault_histories', {'histories': len(cases), 'dispatches_with_a_refused_run_id': nf,
+                                 'note': 'oracle only; the refused run id is not an event of the model'})
+    ctx.count(evaluations=len(cases))
+
+
 def search_failing_input(ctx, results, oracle, profiles, deep_done):
     bad = [r for r in results if r.get('mismatch')][:4]
     cont = []
